@@ -502,3 +502,33 @@ def directed_crystals(ctx, groups, rng, per_letter=2):
                 a3, desc = crystals.present(atoms, rng)
                 if len(a3) <= 300:
                     yield n, atoms, a3, {"letter": l, "presentation": desc}
+
+
+def probe_letters(ctx, positions, rng):
+    """the tabulated orbit of letter L of group n, decorated with a general-position orbit of a second species, must be labelled L by an
+    independent assignment (spglib on the crystal as built, judged only when spglib works in the tabulated origin: identity transformation,
+    zero origin shift, same group).  positions: [(n, letter)].  Returns the positions whose label differs."""
+    import spglib
+    import crystals
+    out = []
+    for n, letter in positions:
+        W = crystals.wyckoff_tables()[n]
+        general = [l for l in W if l != "translations"][-1] if True else None
+        general = max((l for l in W if l != "translations"), key=lambda l: len(W[l]["expressions"]))
+        occ = [(letter, 29)] + ([(general, 8)] if general != letter else [])
+        try:
+            atoms, fr, letters = rational_crystal(n, occ, rng)
+            ds = spglib.get_symmetry_dataset((np.array(atoms.get_cell()), atoms.get_scaled_positions(), atoms.get_atomic_numbers()), symprec=1e-4)
+        except Exception:  # noqa
+            ctx.count("letter_probe_failed")
+            continue
+        if ds is None or ds.number != n or np.abs(np.array(ds.origin_shift) - np.rint(ds.origin_shift)).max() > 1e-6 or \
+                not np.allclose(ds.transformation_matrix, np.eye(3), atol=1e-6):
+            ctx.count("letter_probe_not_comparable")
+            continue
+        ctx.count("letter_probe_compared")
+        ctx.case(("letter-probe", n, letter), nontrivial=True)
+        got = sorted({w for w, l in zip(ds.wyckoffs, letters) if l == letter})
+        if got != [letter]:
+            out.append({"group": n, "letter": letter, "independent_assignment": got})
+    return out
